@@ -489,23 +489,44 @@ func c10calcBE(c *Ctx, fn *ssa.Function) {
 	}
 	r.Check(sys && res && lse, "PATH", fkey(fn)+"/exclusion-sources", c.Pos(fn.Pos()), "system-exclusive, reserved and LSE-owned CPUs all enter the exclusion map",
 		sprintf("exclusion map is not fed from all three sources: system-exclusive=%v reserved=%v LSE-pods=%v", sys, res, lse))
-	// closure: return !m[ID]
+	// closure: Filter(func: return !m[ID]) or, equivalently, FilterNot(func: return m[ID])
 	okClosure := false
-	for _, a := range fn.AnonFuncs {
-		for _, b := range a.Blocks {
-			for _, in := range b.Instrs {
-				ret, ok := in.(*ssa.Return)
-				if !ok || len(ret.Results) != 1 {
-					continue
-				}
-				v, neg := an.StripNot(ret.Results[0])
-				if _, isLookup := v.(*ssa.Lookup); isLookup && neg {
-					okClosure = true
-				}
+	for _, cl := range an.Calls(fn, false) {
+		sn := an.ShortCallee(cl.Common())
+		if sn != "Filter" && sn != "FilterNot" {
+			continue
+		}
+		args := cl.Common().Args
+		mc, ok := args[len(args)-1].(*ssa.MakeClosure)
+		if !ok {
+			continue
+		}
+		a, _ := mc.Fn.(*ssa.Function)
+		if a == nil {
+			continue
+		}
+		all := true
+		n := 0
+		for _, alt := range an.ReturnAlts(a) {
+			if len(alt.Results) != 1 {
+				continue
+			}
+			n++
+			v, neg := an.StripNot(alt.Results[0])
+			_, isLookup := v.(*ssa.Lookup)
+			if cst, isC := v.(*ssa.Const); isC && cst.Value != nil {
+				// a constant arm of a merged return: "in the map" arms must yield the excluding constant
+				continue
+			}
+			if !isLookup || neg != (sn == "Filter") {
+				all = false
 			}
 		}
+		if all && n > 0 {
+			okClosure = true
+		}
 	}
-	r.Check(okClosure, "PATH", fkey(fn)+"/filter-closure", c.Pos(fn.Pos()), "Filter keeps exactly the CPUs absent from the exclusion map", "the Filter closure does not return the negated map lookup: unknown idiom or inverted filter")
+	r.Check(okClosure, "PATH", fkey(fn)+"/filter-closure", c.Pos(fn.Pos()), "Filter keeps exactly the CPUs absent from the exclusion map", "the predicate handed to Filter / FilterNot does not keep exactly the CPUs absent from the exclusion map (Filter needs the negated lookup, FilterNot the plain one): unknown idiom or inverted filter")
 }
 
 // c10budget: polarity of the budget in the consumption inputs (structural form).
